@@ -91,8 +91,8 @@ impl Property for C01 {
             knobs: Knobs { max_nodes, variant, ..Default::default() },
         };
         match tier {
-            Tier::Quick => vec![mk("whole", 200_000, 0, 30), mk("subtree", 100_000, 1, 30), mk("api-free", 300_000, 2, 24)],
-            Tier::Thorough => vec![mk("whole", 1_200_000, 0, 30), mk("whole-big", 80_000, 0, 120), mk("subtree", 600_000, 1, 30), mk("api-free", 800_000, 2, 24)],
+            Tier::Quick => vec![mk("whole", 200_000, 0, 30), mk("subtree", 100_000, 1, 30), mk("api-free", 300_000, 2, 24), mk("whole-wide", 100_000, 3, 30)],
+            Tier::Thorough => vec![mk("whole", 1_200_000, 0, 30), mk("whole-big", 80_000, 0, 120), mk("subtree", 600_000, 1, 30), mk("api-free", 800_000, 2, 24), mk("whole-wide", 600_000, 3, 30)],
         }
     }
 
@@ -102,6 +102,8 @@ impl Property for C01 {
         }
         let mut o = TreeOpts::xml(ctx.knobs.max_nodes.max(3));
         o.odd_uris = true;
+        // plan whole-wide: non-ASCII prefixes and local names such as id / lang / space in any namespace
+        o.wide_prefixes = ctx.knobs.variant == 3;
         let doc = match src.weighted(&[5, 3, 2]) {
             0 => gen::gen_document(src, &o),
             1 => gen::gen_fragment(src, &o),
@@ -127,7 +129,7 @@ impl Property for C01 {
         ctx.rendering(|| doc.show());
         ctx.nontrivial = doc.count() >= 3 && (has_special_chars(&doc) || has_decls(&doc));
         let r: Result<(), String> = (|| {
-            if ctx.knobs.variant == 0 {
+            if ctx.knobs.variant == 0 || ctx.knobs.variant == 3 {
                 let s = guarded(|| xot.to_string(root))
                     .map_err(|p| format!("to_string panicked: {}", p))?
                     .map_err(|e| format!("to_string failed on a representable, well-scoped tree: {}", e))?;
